@@ -96,7 +96,7 @@ class FieldCollection(FieldBase):
         if copy_fields:
             self._fields = [field.copy() for field in fields]
         else:
-            self._fields = fields  # type: ignore
+            self._fields = list(fields)
 
         # extract data from individual fields
         fields_data: list[NumericArray] = []
